@@ -243,3 +243,40 @@ def stmt_of(node):
 
 def same_expr(a, b):
     return norm(a) == norm(b)
+
+
+def regex_match_pattern(fi, call):
+    """The constant pattern of a regex test, or None.  Recognised: ``re.match(<const>, x)`` / ``re.fullmatch`` / ``re.search``,
+    the same with the pattern held in a module- or class-level constant, and ``<NAME>.match(x)`` where NAME is a module- or
+    class-level ``re.compile(<const>)``."""
+    if not (isinstance(call, ast.Call) and isinstance(call.func, ast.Attribute) and call.func.attr in ("match", "fullmatch", "search")):
+        return None
+
+    def const_of(e, depth=0):
+        if isinstance(e, ast.Constant) and isinstance(e.value, str):
+            return e.value
+        if depth > 2:
+            return None
+        v = None
+        if isinstance(e, ast.Name):
+            v = fi.module.assigns.get(e.id)
+        elif isinstance(e, ast.Attribute) and isinstance(e.value, ast.Name) and e.value.id in ("self", "cls") and fi.cls is not None:
+            v = fi.cls.attrs.get(e.attr)
+        if v is None:
+            return None
+        if isinstance(v, ast.Call) and isinstance(v.func, ast.Attribute) and v.func.attr == "compile" and isinstance(v.func.value, ast.Name) and v.func.value.id == "re" and v.args:
+            return const_of(v.args[0], depth + 1)
+        return const_of(v, depth + 1)
+
+    recv = call.func.value
+    if isinstance(recv, ast.Name) and recv.id == "re":
+        return const_of(call.args[0]) if call.args else None
+    # compiled pattern object
+    v = None
+    if isinstance(recv, ast.Name):
+        v = fi.module.assigns.get(recv.id)
+    elif isinstance(recv, ast.Attribute) and isinstance(recv.value, ast.Name) and recv.value.id in ("self", "cls") and fi.cls is not None:
+        v = fi.cls.attrs.get(recv.attr)
+    if isinstance(v, ast.Call) and isinstance(v.func, ast.Attribute) and v.func.attr == "compile" and v.args:
+        return const_of(v.args[0])
+    return None
